@@ -1,6 +1,7 @@
 (* Proofs about Dataset/Reject.v (property C18). *)
 From Coq Require Import NArith Arith List Bool Lia.
 From Coq Require Decimal DecimalN DecimalPos.
+From Pq Require Proofs.OpsProofs.
 From Pq Require Import Base.Bytes Proofs.BytesProofs Dataset.FS Dataset.FsPaths Dataset.Crash Proofs.CrashProofs
   Dataset.Reject.
 Import ListNotations.
@@ -158,18 +159,9 @@ Qed.
 Lemma is_prefix_app a b : is_prefix a (a ++ b) = true.
 Proof. induction a as [|x a IH]; cbn [is_prefix app]; [reflexivity|]. now rewrite N.eqb_refl. Qed.
 
+(* proved by the owner of FsPaths.v against the current definition of part_id (Proofs/OpsProofs.v) *)
 Lemma part_id_prefix pre n : existsb (N.eqb 10) pre = false -> part_id (pre ++ part_name n) = Some n.
-Proof.
-  intros Hnl. unfold part_id. rewrite existsb_nl_app, Hnl, part_name_no_nl. cbn [orb].
-  rewrite rev_part_name, strip_prefix_app.
-  assert (Hd : forallb is_digit (rev (dec n)) = true) by (rewrite forallb_rev; apply uint_bytes_digits).
-  rewrite (span_digits_app (rev (dec n)) dot _ Hd eq_refl).
-  replace (is_prefix (rev s_part) (dot :: rev s_part ++ rev pre)) with false by reflexivity.
-  cbn [andb]. rewrite is_prefix_app.
-  assert (Hl : Nat.leb 1 (length (rev (dec n))) = true).
-  { rewrite rev_length. pose proof (dec_nonempty n). destruct (dec n); [congruence | reflexivity]. }
-  rewrite Hl, rev_involutive. apply undec_dec.
-Qed.
+Proof. exact (OpsProofs.part_id_named pre n). Qed.
 
 Lemma part_id_join d n : no_nl d = true -> part_id (join d (part_name n)) = Some n.
 Proof.
